@@ -416,6 +416,25 @@ def main(tier, replay=None):
                 o = reenter(inner, where, text, 5.0)
             obs.append(o)
     run.extra['reentrant_callbacks'] = len(obs) - n0
+    # --- host functions that translate one error value into another (raise ... from ...), in both directions, then anything
+    n0 = len(obs)
+    E = _err
+    pairs = [(E.VALUE, E.NOT_AVAILABLE), (E.NOT_AVAILABLE, E.VALUE), (E.NUM, E.NUM), (E.DIV_ZERO, ValueError('x')), (E.REF, E.NAME), (E.NAME, E.REF)]
+    q = lib.Parser()
+    for i, (a, b) in enumerate(pairs):
+        def translate(_a=a, _b=b):
+            try:
+                raise _b
+            except BaseException as x:
+                raise _a from x
+        q.set_function('TR%d' % i, translate)
+    for text in ['TR0()', 'TR1()', '1+1', 'TR2()', 'IFERROR(TR3(),TR4())', 'TR5()+TR4()', '1+1', 'SUM(1,2)', 'TR0()&TR1()']:
+        for qq in (q, lib.Parser()):
+            rec, raised, timed = guarded_parse(qq, text if qq is q else '1+1')
+            if timed:
+                rec, raised, timed = guarded_parse(qq, text if qq is q else '1+1', 5.0)
+            obs.append(observation('chain', text if qq is q else '1+1', rec, raised, timed, extra={'after': text}))
+    run.extra['chained_error_values'] = len(obs) - n0
     # --- every documented function x arity x pool
     n0 = len(obs)
     pool = pool_values(lib)
@@ -464,6 +483,14 @@ def main(tier, replay=None):
     for name in names:
         for h in (huge if not quick else [huge[0], huge[3], huge[(len(name)) % 4 + 1], huge[5 + len(name) % 4]]):
             texts += ['%s(%s)' % (name, h), '%s(2,%s)' % (name, h), '%s(%s,2)' % (name, h), '%s(2,3,%s)' % (name, h)]
+    # criteria and patterns with every kind of dangling escape, operator and wildcard, for the functions that interpret them
+    crits = ['a*~', '~', '*~', '?~', 'a~', '~~', '~*', '~?', '>', '<', '<>', '>=', '=', '*', '?', '**', '>~', '>*', '>1e', '>1e5', '<=-', 'a[b', 'a]',
+             '[', '[!', '[a-', 'a\\\\', '{', '(', ')', '^$', '.*', '%', '>=<=', '=>1', '>>1', ' >1', '> 1', '"', "'"]
+    for c in crits:
+        cq = c.replace('"', '""')
+        for t in ('COUNTIF({"ab";"a~";1;2},"%s")', 'SUMIF({1;2;3},"%s")', 'AVERAGEIF({"a";"b"},"%s",{1;2})', 'SUMIFS({1;2},{"ab";"a~"},"%s")',
+                  'MAXIFS({1;2},{1;2},"%s")', 'AVERAGEIFS({1;2},{"x";"y"},"%s")', 'MATCH("%s",{"ab";"a~";"a*"},0)', 'SUBSTITUTE("a~b*","%s","x")'):
+            texts.append(t % cq)
     texts += ['9^999999999', '2^99999999', '10^400', '7^77777', '99^9999999', '1^999999999999', '0^0', '2^3^999999999',
               '999999999%', '10^30*10^30', '"a"&10^400', '-9^999999999', '(2^99999999)=1']
     # results longer than any limit a spreadsheet has for a cell
@@ -479,7 +506,7 @@ def main(tier, replay=None):
     # confirm timeouts deterministically
     for o in obs:
         if o['timed_out']:
-            if o['kind'] in ('fault', 'text', 'resubscribe', 'reenter'):
+            if o['kind'] in ('fault', 'text', 'resubscribe', 'reenter', 'chain'):
                 continue
             def mk():
                 q = mk_parser(lib)
